@@ -150,6 +150,7 @@ def main():
             t = run(name, a['base'][:4], a['base'][4:])
             a['path_fields'] = [f.name for f in dataclasses.fields(t)
                                 if isinstance(getattr(t, f.name), str) and getattr(t, f.name).startswith('/p')]
+    audit['BSC_ioctl']['dom'][1] = 'ioctl'      # generated by harness: defined direction x any len/group/num x any upper half
     audit['BSC_posix_spawn']['path_fields'] = ['stdin', 'stdout', 'stderr', 'path']   # lookup order
     # host-typed enums: keep only values valid on Linux and Darwin alike
     HOST = {'BSC_sigaction': {0: list(range(1, 32))},
